@@ -2,7 +2,7 @@ SPECIFICATION GSpec
 CONSTANTS
   MaxId = 4
   NDocs = 1
-  NNames = 2
+  NNames = 1
   NStrs = 1
   MaxData = 2
   MaxOps = 1
@@ -14,7 +14,7 @@ CONSTANTS
   MaxViewOps = 3
   MaxPost = 0
   BuildKinds = {"elem", "text"}
-  GModes = {"all", "allRejB"}
+  GModes = {"all"}
   GListNames = {"a", "*"}
   GKinds = {"it"}
   GMut = {"struct"}
